@@ -54,6 +54,13 @@ def termify(a: Arr):
 
 
 def _termify(a, c, known, depth):
+    # an array whose generic cell is syntactically the one of an array seen before IS that matrix (template term): no search
+    seen_before = c.memo.get("template_hits", 0)
+    t0 = _template_term(a, only_existing=True)
+    if t0 is not None:
+        c.memo["template_hits"] = seen_before + 1
+        a.term = t0
+        return t0
     # nested call (a cell of a known array itself needs a term): no extensionality search, or it would not terminate
     for (b, t) in (known if depth == 0 else []):
         if b.ndim != a.ndim:
@@ -79,7 +86,7 @@ def _termify(a, c, known, depth):
     return t
 
 
-def _template_term(a):
+def _template_term(a, only_existing=False):
     """matrix term as an uninterpreted function of the free constants of the generic cell expression (so that
     'the same matrix at provably equal parameters' is the same term by congruence); None if the cell cannot be
     evaluated at bound indices"""
@@ -116,6 +123,8 @@ def _template_term(a):
     tk, free = sym.template_of(exprs, {b.get_id() for b in canon}, sorts=(z3.IntSort(), z3.RealSort(), z3.BoolSort(), Mat))
     key = ("matrix-template", tk)
     decl = c.memo.get(key)
+    if decl is None and only_existing:
+        return None
     if decl is None:
         nm = c.fresh_name("MAT")
         decl = z3.Function(nm, *[x.sort() for x in free], Mat) if free else z3.Const(nm, Mat)
